@@ -289,7 +289,7 @@ def robustness_corpus(ctx, rng):
     out = [(k, w) for k, w in c07.corpus(ctx, rng) if k != 'name']
     sd = DigestSha256Signer()
     # packets aimed at the busy state's names
-    for nm in (P1, P2, P2 + [rc.comp(8, b'x')], H, H + [rc.comp(8, b'q')], HS, [rc.comp(8, b'p')], [rc.comp(8, b'zz')]):
+    for nm in (P1, P2, P2 + [rc.comp(8, b'x')], P1 + [rc.comp(8, b'x')], P1 + [rc.comp(8, b'x'), rc.comp(8, b'y')], H, H + [rc.comp(8, b'q')], HS, [rc.comp(8, b'p')], [rc.comp(8, b'zz')]):
         out.append(('data', bytes(make_data(nm, MetaInfo(), b'payload', sd))))
         out.append(('interest', bytes(make_interest(nm, InterestParam(nonce=5, lifetime=500)))))
         out.append(('interest', bytes(make_interest(nm, InterestParam(nonce=6), b'params', DigestSha256Signer(for_interest=True)))))
@@ -441,7 +441,9 @@ def run_batch(ctx, fe, state, items):
             w = {'frontend': fe, 'state': state, 'kind': kind, 'mutation': label, 'mode': mode,
                  'wire': wire if len(wire) < 500 else wire[:250]}
             try:
-                await the_app._receive(typ, wire)
+                # the transport's buffer: immutable bytes, a bytearray, or a writable view of one (same octets)
+                k_ = ctx.evaluations % 3
+                await the_app._receive(typ, wire if k_ == 0 else bytearray(wire) if k_ == 1 else memoryview(bytearray(wire)))
             except Exception as e:   # noqa
                 site = raising_site(e)
                 res['viol'].append((f'uncaught:{type(e).__name__}@{site[0]}<-{fe}', f'packet reception raised {e!r}', w))
